@@ -34,45 +34,22 @@ def run(tier, seed):
         for m in mism[:3]:
             res["broken"].append({"what": "correspondence: MuModel and the real mu.c disagree in lock-step", "scenario": "mu_mix",
                                   "seed": m["seed"], "detail": m["replay"]})
-    # 2. oracle: shadow occupancy over many schedules (both with and without a designated late arrival)
-    nrun = 3000 if tier == "quick" else 60000
-    rs = vrt_runner.run_many(exe, range(base + 1, base + 1 + nrun), {"VRT_QUIET": 1})
-    agg, fails = vrt_runner.summarize(rs)
-    seen = set()
-    for f in fails:
-        if f["prop"] in seen:
-            continue
-        seen.add(f["prop"])
-        res["violations"].append({"scenario": "mu_mix", "seed": f["seed"], "oracle": f["prop"], "why": f["msg"],
-                                  "trace_tail": f.get("tail", []), "key": "mu_mix:" + f["prop"]})
-    # wait re-acquisition paths (cv wait, signal/broadcast with transfer to the mutex queue, timeouts, cancellation)
-    for scen, envs in (("cv_mix", [{"VRT_MODE": 0}, {"VRT_MODE": 1}, {"VRT_MODE": 2}]),):
-        exe2, err = vrt_runner.build(scen)
-        if exe2 is None:
-            res["broken"].append({"what": "harness build failed (%s)" % scen, "detail": err})
-            continue
-        for env in envs:
-            n2 = 1500 if tier == "quick" else 30000
-            e2 = dict(env)
-            e2["VRT_QUIET"] = 1
-            rs2 = vrt_runner.run_many(exe2, range(base + 1, base + 1 + n2), e2)
-            a2, fails2 = vrt_runner.summarize(rs2)
-            nrun += n2
-            for k, v in a2.items():
-                agg[scen + "." + k] = agg.get(scen + "." + k, 0) + v
-            seen = set()
-            for f in fails2:
-                if f["prop"] in seen:
-                    continue
-                seen.add(f["prop"])
-                res["violations"].append({"scenario": scen, "env": env, "seed": f["seed"], "oracle": f["prop"], "why": f["msg"],
-                                          "trace_tail": f.get("tail", []), "key": scen + ":" + f["prop"]})
+    # 2. oracle: shadow occupancy on every acquisition path, counting and binary semaphore flavours
+    import scen_common
+    specs = [("mu_mix", {}, 3000, 60000), ("cv_mix", {"VRT_MODE": 0}, 1500, 30000), ("cv_mix", {"VRT_MODE": 1}, 1000, 30000),
+             ("cv_mix", {"VRT_MODE": 2}, 1500, 30000), ("muwait_mix", {}, 1500, 30000), ("waitn_mix", {}, 1000, 20000),
+             ("mu_mix", {}, 1000, 20000, "binary"), ("cv_mix", {}, 1000, 20000, "binary"), ("muwait_mix", {}, 700, 15000, "binary")]
+    oc = scen_common.run_scenarios(res, specs, tier, seed, {"C01"} | scen_common.LIVENESS | scen_common.CRASHES)
+    nrun = oc["evaluations"]
+    agg = oc["sched_stats"]
+    rs = []
     uncovered = [s for s in mu_common.MODEL_SITES if str(s) not in sites]
-    res["coverage"] = {"evaluations": nrun + nrep, "distinct_nontrivial": sum(1 for r in rs if r.get("stats", {}).get("futex_sleep", 0) > 0),
-                       "rule": "mu_mix: 2..4 threads (+ late arrivals) x random sequences of lock/rlock/trylock/rtrylock sections, random "
+    res["coverage"] = {"evaluations": nrun + nrep, "distinct_nontrivial": oc["distinct_nontrivial"], "other_oracle_failures": oc["other_oracle_failures"],
+                       "rule": "mu_mix / cv_mix (3 modes) / muwait_mix / waitn_mix with the counting semaphore and mu_mix / cv_mix / muwait_mix with a binary one; "
+                               "mu_mix: 2..4 threads (+ late arrivals) x random sequences of lock/rlock/trylock/rtrylock sections, random "
                                "and PCT-like schedules from VERIF_SEED; non-trivial = executions in which some thread slept on its semaphore "
                                "(contended slow paths)",
                        "traces_validated_against_impl": nrep - len(mism), "lockstep_model_steps": steps,
                        "model_sites_hit": sites, "model_sites_never_hit": uncovered, "sched_stats": agg,
-                       "samples": [{"scenario": "mu_mix", "seed": base + 1, "stats": rs[0].get("stats")}]}
+                       "samples": oc["samples"]}
     return res
